@@ -217,6 +217,22 @@ def sqrt_poly(p: Poly) -> Rat:
     alt = _monomial_via_sin(p)
     if alt is not None:
         return alt
+    # pull out the even part of the monomial content: sqrt(c^4 - c^2 v^2) = c sqrt(c^2 - v^2)
+    content: dict = {}
+    first = True
+    for m in p.t:
+        d = dict(m)
+        if first:
+            content = dict(d)
+            first = False
+        else:
+            content = {k: min(e, d.get(k, 0)) for k, e in content.items()}
+    content = {k: (e // 2) * 2 for k, e in content.items() if k[0] == "v" and e >= 2}
+    if content:
+        div = tuple(sorted(content.items(), key=repr))
+        rest = Poly({_mono_mul(m, tuple((k, -e) for k, e in div)): c for m, c in p.t.items()})
+        outer = Rat(Poly({tuple(sorted(((k, e // 2) for k, e in content.items()), key=repr)): Fraction(1)}))
+        return outer * sqrt_poly(rest)
     # common numeric content that is a perfect square is pulled out; the rest becomes one atom
     lead = p.t[sorted(p.t, key=repr)[0]]
     scale = Fraction(1)
